@@ -3,7 +3,7 @@ import simgen, oracles
 from props import simprops
 
 HARNESS = ("simh",)
-TRUSTED = ["the work-stealing / parking protocol of the multi-threaded executor (pool_manager.rs, mt_executor.rs, injector.rs, st3, parking) is NOT modelled: it is exercised only through real runs on 2..16 threads whose outcome must equal the model's; no delay hooks are installed",
+TRUSTED = ["the work-stealing / parking protocol of the multi-threaded executor (pool_manager.rs, mt_executor.rs, injector.rs, st3, parking) is NOT modelled: it is exercised only through real runs on 2..16 threads whose outcome must equal the model's; seeded delays (yield / sleep up to 300 us) at 15 protocol points of mt_executor.rs and pool_manager.rs (hooks nexosim::verif, cfg nexosim_verif) perturb the parking / idle hand-off in the delayed-executors part; the barrier protocol itself is modelled in Pool.v",
            "schedule independence (confluence) is proved only as computed instances (c04_confluent_instance, c07_nonvacuous, c16 example); in general it is checked by comparing executors"]
 ASSUMPTIONS = ["handlers await only port operations; DAG topologies (no schedule-dependent stall)"]
 ORACLES = (oracles.o_harness, oracles.o_exactly_once, oracles.o_time)
@@ -19,10 +19,14 @@ def tie(rep, tier, rng, model_ok):
     b = [simgen.gen_multi(rng) for _ in range(150 if q else 4000)]
     w = [simgen.gen_wide(rng) for _ in range(6 if q else 60)]
     threads = (1, 2, 3, 4, 8, 16)
+    dl = tuple("%dd%dp%du%d" % (t, rng.randrange(1, 10**6), pm, us) for t, pm, us in
+               ((4, 300, 200), (2, 500, 100), (7, 200, 300)))
+    dcases = [simgen.gen_net(rng) for _ in range(150 if q else 3000)] + [simgen.gen_multi(rng) for _ in range(60 if q else 1000)]
     simprops.run(rep, "C04", model_ok,
                  [("net-all-executors", a, threads, ORACLES, nontrivial),
                   ("multi-all-executors", b, threads, (oracles.o_harness, oracles.o_time), nontrivial),
-                  ("wide-all-executors", w, (1, 2, 4, 7), ORACLES, nontrivial)],
+                  ("wide-all-executors", w, (1, 2, 4, 7), ORACLES, nontrivial),
+                  ("delayed-executors", dcases, dl, (oracles.o_harness, oracles.o_time), nontrivial)],
                  "the same bench/commands on the single-threaded executor and on 2,3,4,8,16 worker threads; every run's per-command multiset of handler invocations, results, times and sink contents must equal the model's reference run; oracle: when a call returns Ok every sent message has been processed. wide = 129..300 models with one event each due at the same time (more than one 128-task injector bucket). non-trivial = >=4 invocations")
 
 
